@@ -54,7 +54,7 @@ def elitism_case(find, values, dup, minimize, k, form, pre_evaluated):
     except Exception as ex:  # noqa
         find.add("rt:C16:ElitismStep.exception", f"ElitismStep on {desc} raised {type(ex).__name__}: {str(ex)[:80]}", (len(pop), k))
         return False
-    size = (len(pop), k, sum(values))
+    size = (len(pop), k, sum(v for v in values if v == v and abs(v) != float("inf")))
     if len(out) != k:
         find.add("rt:C16:ElitismStep.count", f"ElitismStep on {desc} returned {len(out)} individuals", size)
         return False
@@ -162,6 +162,22 @@ def run(tier: str, seed: int) -> dict:
                                 nontrivial += 1
                             if len(samples) < 4 and evaluations % 1501 == 7:
                                 samples.append(f"ElitismStep values={values} dup={dup} minimize={minimize} k={k} {form}: {'ok' if ok else 'VIOLATION'}")
+    # 1b. boundary fitness values: the best / worst representable values (a fitness of 1/error or -log(error) at zero
+    # error), negative and fractional values, mixed with ordinary ones
+    inf = float("inf")
+    for n in range(1, 4):
+        for values in itertools.product((-inf, -1.5, 0, 2, inf), repeat=n):
+            if not any(v in (inf, -inf) for v in values):
+                continue
+            for minimize in (False, True):
+                for k in range(1, n + 1):
+                    if dl.over():
+                        exhaustive = False
+                        break
+                    ok = elitism_case(find, values, None, minimize, k, "list", (n + k) % 2 == 0)
+                    evaluations += 1
+                    if len(set(values)) > 1 and k < n:
+                        nontrivial += 1
     n_elitism = evaluations
 
     # 2. GP runs, 10 generations, best fitness per generation
